@@ -1,6 +1,7 @@
 """C02 - measurement follows the Born rule and collapses to the normalised projection."""
 import time
 
+import joint_common
 import qrt_common
 import qsim_common
 import vlib
@@ -22,13 +23,19 @@ def run(tier, seed):
     for v in pv[:5]:
         out.violation(v["what"], v, "beh%d" % v["behaviour"])
     nviol += len(pv)
+    # the simulator's OWN random stream (no injected draws): joint distribution of measured bits over thousands of real shots
+    jstats, jviol = joint_common.run(tier)
+    mine = [v for v in jviol if v["property"] == PID]
+    for k, v in enumerate(mine[:4]):
+        out.violation(v["what"], v, "joint%d" % k)
+    nviol += len(mine)
     cov = {"states": meta["distinct"], "transitions": meta["generated"],
            "traces_validated_against_impl": rep["per_action"].get("measure", 0),
            "measure_calls_on_impl": rep["measure_draws"],
            "programs_run": stats["behaviours"], "program_stats": {k: stats[k] for k in ("halted", "stmt_kinds", "paths")},
            "program_sample": sample,
            "samples": [s for s in rep["samples"]][:3] + [{"draw_grid": "(2j+1)/32 for j=0..15, 1e-9, 1-1e-9"}],
-           "nodes_replayed": rep["nodes"], "unreached_nodes": rep["unreached"], "tlc": meta, "exhaustive": True,
+           "nodes_replayed": rep["nodes"], "unreached_nodes": rep["unreached"], "tlc": meta, "exhaustive": True, "real_rng_joint_statistics": jstats,
            "rule": "for every reachable spec state (<=3 qubits, stabiliser closure incl. earlier measurements and "
                    "resets) and every unmeasured qubit: the implementation is run from a copy of that state's object "
                    "once per draw on an 18-point grid injected through the draw hook; the returned outcome must have "
@@ -37,7 +44,7 @@ def run(tier, seed):
                    "must equal the exact P1; every possible outcome must be produced. Spec side: BornOnGrid, CollapseOK, "
                    "Definite invariants hold in every state (TLC)."}
     vlib.write_evidence(PID, tier, seed, "model_checking", cov,
-                        ["the RNG itself (mt19937 + uniform_real_distribution) is assumed uniform; the draw is an input",
+                        ["the exhaustive part takes the draw as an input; the simulator's own random stream is sampled by the joint-statistics part (40 000 real shots per circuit, total variation <= 0.05 against the exact distribution)",
                          "draws within 1e-9 of 0 or 1 are not injected (inside floating-point noise of p1)",
                          "program-level agreement of returned bit / stored value / tracked outcome is checked by the "
                          "runtime trace checks (C03/C17)"],
